@@ -27,6 +27,10 @@ CHECKS = {
                 text="Every generated forest is written by rbx_binary under the three compression modes and read back; TLC evaluates RoundTripIssues (BinaryFormat.tla) = {} on the logged before/after forests, with the permitted normalisations (BinaryString for unknown string blobs, 8-bit colour quantisation as a relation on bit patterns, epsilon rotation snapping, gained defaults) written as TLA+ operators over byte-vector values and the reflection database loaded as a constant.",
                 note="Value spaces are sampled (boundary tables + random bits); zstd/lz4 are trusted third-party code; the database export and the forest projection are trusted.",
                 technique="TLA+ specification of the binary format's meaning (BinaryFormat.tla, Reflection.tla) + trace validation of logged write/read cases"),
+    "C02": dict(level="model_checking", ref="§4 C02/C05, §2.6",
+                text="Generated forests are written by rbx_xml (default options for database properties, WriteUnknown+ReadUnknown and NoReflection+NoReflection for unknown ones) and read back; TLC evaluates XmlRoundTripIssues (XmlFormat.tla) = {} on the logged forests: canonical names through Reflection.tla, floats bit-exact (NaN as a class), the documented XML normalisations (BrickColor->Int32, Tags/Attributes/MaterialColors->BinaryString for unknown properties, colour quantisation), references and SharedStrings restored.",
+                note="The lexical layer is exercised through real text but judged only via the values that come back; values are sampled. Content object references are a recorded finding (writer panics).",
+                technique="TLA+ specification of the XML format's meaning (XmlFormat.tla) + trace validation of logged write/read cases"),
     "C03": dict(level="model_checking", ref="§4 C03, §2.5",
                 text="The independent decoder is the TLA+ module BinaryWire (docs/binary.md transcribed; its worked examples are ASSUMEs checked every run). Every file rbx_binary emits for generated forests is decoded by TLC and must satisfy WriterInvariants (all structural clauses of the property) and FileIssues = {} (the decoded classes, hierarchy and values are exactly the forest), for all three compression modes with byte-identical chunk data; a document-literal dialect run lists where document and code disagree.",
                 note="Chunk bodies are decompressed with the lz4/zstd crates before TLC sees them; files are kept small enough for TLC's interpreter.",
@@ -35,6 +39,10 @@ CHECKS = {
                 text="MCForeignBinary.tla enumerates, for fixed logical forests, every combination of the freedoms docs/binary.md leaves open (class ids, referents, INST/PROP/PRNT orders, META/unknown chunks, service format, narrower numeric types, truncated/unknown-type PROP chunks, per-chunk compression). A foreign encoder written from the document concretises each abstract file; TLC first decodes the bytes with BinaryWire.tla and requires them to mean the logical forest (the encoder is held to the spec), then requires the forest rbx_binary read to be that forest.",
                 note="Two fixed forests; quick tier replays a seeded sample of the enumerated abstract files, thorough all of group 2 and 12000 of group 1. INST chunks precede PROP chunks as in the document's file structure.",
                 technique="TLA+ enumeration of spec-conformant encodings + independent encoder validated by the TLA+ decoder + trace validation of the real reader"),
+    "C05": dict(level="model_checking", ref="§4 C02/C05, §2.6",
+                text="Writer direction: every document rbx_xml emits is parsed by an independent XML parser (expat) into a token tree and TLC evaluates DocInvariants (all structural clauses of the property) and DocIssues = {} with XmlValue, the per-type value decoder transcribed from docs/xml.md. Reader direction: an independent generator written from docs/xml.md emits documents varying referent style, property order, indentation, Meta/External, forward references, ProtectedString, url/uri, wrapped base64, number spellings, Properties placement; each document is first held to XmlFormat.tla itself, then the forest rbx_xml read must be the forest it describes.",
+                note="Decimal text -> bit patterns is done by exact rational arithmetic in tools/xmltok.py (type-agnostic lexical views); which view a type uses is decided in TLA+. Two recorded findings (CR in strings, inf/NaN spelling inside CFrames).",
+                technique="independent XML parser + TLA+ value decoder from docs/xml.md (XmlFormat.tla) + independent document generator validated by the same spec"),
     "C08": dict(level="model_checking", ref="§4 C08, §2.5, App. B.3",
                 text="MCBinaryColumns.tla models collect_type_info and the per-instance value lookup with the real database as a constant; TLC checks AlwaysSucceeds / OwnValues / ColumnsExact / ExplicitWins for every subset assignment, sibling order, property-map and alias-set iteration order (and re-finds both repaired defects under the pre-fix rules). Every population (initial state) is built as a real DOM, written and read by rbx_binary, also instance by instance, and judged by BinaryFormat.tla (own values, defaults for lacking properties, success iff each instance succeeds alone).",
                 note="Exhaustive for the listed classes/spellings and 2-3 instances; other classes are reached by C01's random generators. The Font enum -> Font face table is uninterpreted.",
